@@ -49,7 +49,6 @@ LEVEL_TEXT = ('Kernel-checked: every modelled user action (tables, columns, view
               'update_summary_section is refuted in Coq by the witness that also fails on the engine (known findings).')
 LEVEL_NOTE = ('Kernel strength: what summary.py decides from names/types/formulas enters as recorded parameters; '
               'actions outside the model are covered by the oracle only (listed under assumptions).')
-DISABLED = True
 
 META_TABLES = ('_grist_Tables', '_grist_Tables_column', '_grist_Views', '_grist_Views_section',
                '_grist_Views_section_field', '_grist_TabBar', '_grist_Pages')
@@ -135,6 +134,12 @@ def refs_resolve(P):
   V = set(P['views'])
   S = {s['id']: s for s in P['sections']}
   F = {f['id']: f for f in P['fields']}
+  for what, ids in (('tables', [t['id'] for t in P['tables']]), ('columns', [c['id'] for c in P['columns']]),
+                    ('views', P['views']), ('sections', [s['id'] for s in P['sections']]),
+                    ('fields', [f['id'] for f in P['fields']]), ('tabbar', [b['id'] for b in P['tabbar']]),
+                    ('pages', [p['id'] for p in P['pages']])):
+    if len(set(ids)) != len(ids) or any(i <= 0 for i in ids):
+      iss.append(('row-ids.' + what, ids))
   for c in P['columns']:
     if c['parent'] not in T:
       iss.append(('col.parentId', c['id'], c['parent']))
@@ -491,6 +496,9 @@ def regroup_of(g, names):
     tr = [t for t in post['tables'] if t['id'] == target]
     if len(tr) != 1 or len(newcols) < len(g['gb']):
       return None
+    rawf = [f['col'] for f in post['fields'] if f['section'] == tr[0]['raw']]
+    if rawf != [c['id'] for c in newcols if c['kind'] == K_NORMAL]:
+      return None          # a column added after the table was created (name collision in _get_or_add_columns)
     d['target'] = 0
     d['name'] = names(tr[0]['name'])
     d['gbkinds'] = [c['kind'] for c in newcols[:len(g['gb'])]]
@@ -634,6 +642,14 @@ def translate(a, P, Q, names, rgs=()):
       return UNMODELLED
     newcols = [c for c in Q['columns'] if c['parent'] == tid]
     if len(newcols) < len(gb):
+      return UNMODELLED
+    # _get_or_add_columns looks columns up by name: when a group-by column is itself called 'count' (or like a
+    # sister column) the engine adds a further column and the new section does not show every column; that
+    # name-dependent case is outside the model
+    old_s = set(s['id'] for s in P['sections'])
+    page = [s['id'] for s in Q['sections'] if s['table'] == tid and s['id'] not in old_s]
+    shown = [f['col'] for f in Q['fields'] if page and f['section'] == max(page)]
+    if shown != [c['id'] for c in newcols if c['kind'] != K_GROUP]:
       return UNMODELLED
     return ('OCreateSummary', tref, vref, list(gb), names(new[0]['name']),
             [c['kind'] for c in newcols[:len(gb)]], [c['kind'] for c in newcols[len(gb):]])
@@ -890,8 +906,11 @@ CHECK_ORACLE = 'fun c => match c with (pre, ops, mid, fin, v) => Bool.eqb (RefsR
 # ------------------------------------------------------------------------------------------------
 # the check
 
+# monitor of the hypothesis of C09_cascade_preserves: wherever the faithful run is defined, the guarded one is too
+CHECK_GUARD = ('fun c => match c with (pre, ops, mid, fin, v) => '
+               'res_ok (steps_guarded ops pre) || negb (res_ok (steps ops pre)) end')
 CHECKS = [('steps', CHECK_STEPS), ('auto', CHECK_AUTO), ('oracle', CHECK_ORACLE), ('stepsok', CHECK_STEPS_OK),
-          ('autook', CHECK_AUTO_OK)]
+          ('autook', CHECK_AUTO_OK), ('guard', CHECK_GUARD)]
 
 BASE_DOC = [[['AddTable', 'T', [{'id': 'A', 'type': 'Text'}, {'id': 'B', 'type': 'Text'}]]],
             [['CreateViewSection', 1, 0, 'record', [3], None]]]
@@ -917,6 +936,24 @@ TARGETED = [
   BASE_DOC + [[['AddEmptyRule', 'T', 0, 0]], [['UpdateRecord', '_grist_Views_section', 2, {'rules': None}]]],
   BASE_DOC + [[['UpdateSummaryViewSection', 5, [2]], ['UpdateSummaryViewSection', 5, [3]]]],
   BASE_DOC + [[['DetachSummaryViewSection', 5]]],
+  # one history per back-reference cell: the record it points at is removed directly
+  BASE_DOC + [[['SetDisplayFormula', 'T', 1, None, '$B']], [['RemoveColumn', 'T', 'gristHelper_Display']]],
+  BASE_DOC + [[['SetDisplayFormula', 'T', None, 2, '$B']], [['RemoveColumn', 'T', 'gristHelper_Display']]],
+  BASE_DOC + [[['SetDisplayFormula', 'T', None, 3, '$A']], [['RemoveColumn', 'T', 'gristHelper_Display']]],
+  BASE_DOC + [[['AddEmptyRule', 'T', 0, 2]], [['RemoveColumn', 'T', 'gristHelper_ConditionalRule']]],
+  BASE_DOC + [[['AddEmptyRule', 'T', 1, 0]], [['RemoveColumn', 'T', 'gristHelper_ConditionalRule']]],
+  BASE_DOC + [[['AddEmptyRule', 'T', 0, 0]], [['RemoveColumn', 'T', 'gristHelper_RowConditionalRule']]],
+  BASE_DOC + [[['AddEmptyRule', 'T', 0, 2], ['AddEmptyRule', 'T', 0, 2]],
+              [['BulkRemoveRecord', '_grist_Tables_column', [7]]]],
+  BASE_DOC + [[['UpdateRecord', '_grist_Tables_column', 2, {'visibleCol': 3}]], [['RemoveColumn', 'T', 'B']]],
+  BASE_DOC + [[['UpdateRecord', '_grist_Views_section_field', 1, {'visibleCol': 3}]], [['RemoveColumn', 'T', 'B']]],
+  BASE_DOC + [[['RemoveView', 1]]],
+  BASE_DOC + [[['RemoveRecord', '_grist_Views', 2]]],
+  BASE_DOC + [[['BulkRemoveRecord', '_grist_Views_section', [1, 5]]]],
+  BASE_DOC + [[['BulkRemoveRecord', '_grist_Tables', [2]]]],
+  BASE_DOC + [[['BulkRemoveRecord', '_grist_Tables', [1]]]],
+  BASE_DOC + [[['SetDisplayFormula', 'T', 1, None, '$B'], ['SetDisplayFormula', 'T', 2, None, '$B']],
+              [['SetDisplayFormula', 'T', 1, None, '']], [['SetDisplayFormula', 'T', 2, None, '']]],
 ]
 
 
@@ -965,17 +1002,27 @@ def small_scope(ctx):
   return out
 
 
-def classify(r, issues):
-  """Failure mode of a bundle after which the oracle reports issues (narrow kinds for the known root causes)."""
+def regroup_defects(r):
+  """Which of the two known defects of update_summary_section calls occurred in this bundle."""
+  out = set()
   for g in r.get('regroups', ()):
     cols = [f['col'] for f in g['pre']['fields'] if f['section'] == g['sec']]
     if len(cols) != len(set(cols)):
-      return 'duplicate-field-regrouped'
-  for g in r.get('regroups', ()):
+      out.add('duplicate-field-regrouped')
     if any(t['raw'] == g['sec'] for t in g['pre']['tables']):
-      if all(i[0] in ('field.colRef', 'field.colRef-other-table', 'table.raw-of-other-table',
-                      'table.rawViewSectionRef') for i in issues):
-        return 'raw-section-regrouped'
+      out.add('raw-section-regrouped')
+  return out
+
+
+def classify(r, issues):
+  """Failure mode of a bundle after which the oracle reports issues (narrow kinds for the known root causes)."""
+  defects = regroup_defects(r)
+  if 'duplicate-field-regrouped' in defects:
+    return 'duplicate-field-regrouped'
+  if 'raw-section-regrouped' in defects:
+    if all(i[0] in ('field.colRef', 'field.colRef-other-table', 'table.raw-of-other-table',
+                    'table.rawViewSectionRef') for i in issues):
+      return 'raw-section-regrouped'
   return 'oracle:' + issues[0][0]
 
 
@@ -1005,7 +1052,7 @@ def collect(ctx):
   """All recorded bundles of this run (random histories + targeted ones), cached on ctx."""
   if getattr(ctx, '_c09_records', None) is not None:
     return ctx._c09_records
-  recs = run_histories(ctx, ctx.n(22, 400), ctx.n(10, 14))
+  recs = run_histories(ctx, ctx.n(22, 260), ctx.n(10, 12))
   ctx.log('recorded %d bundles of random histories on the engine' % len(recs))
   for h in TARGETED:
     r = replay_history(h)
@@ -1022,7 +1069,7 @@ def correspond(ctx):
   recs = collect(ctx)
   names = Names()
   items = [case_defs(i, r, names) for i, r in enumerate(recs)]
-  res = run_multi(ctx, 'tie', items, CHECKS, shard=ctx.n(32, 80))
+  res = run_multi(ctx, 'tie', items, CHECKS, shard=ctx.n(56, 80))
   ctx.log('model evaluated on %d bundles in Coq: %s' % (len(items), {k: len(v) for k, v in res.items()}))
   not_ok = set(res['stepsok'])
   for i, r in enumerate(recs):
@@ -1042,6 +1089,14 @@ def correspond(ctx):
     for i in res[key][:5]:
       ctx.broken('correspondence:%s' % what,
                  'history %s ops %s' % (json.dumps(recs[i]['history'], default=repr), [repr(o) for o in recs[i]['ops']]))
+  # the guard of C09_cascade_preserves may only reject bundles in which one of the two known defects occurred
+  for i in res['guard']:
+    defects = regroup_defects(recs[i])
+    if defects:
+      ctx.bump('guard rejected: ' + '+'.join(sorted(defects)))
+    else:
+      ctx.broken('monitor:update_summary_section broke its guard in a bundle without a known defect',
+                 'history %s' % json.dumps(recs[i]['history'], default=repr))
   ctx.extra['bundles'] = len(recs)
   ctx.extra['bundles_fully_modelled'] = len(recs) - len(not_ok)
   ctx.extra['auto_fix_unmodelled'] = len(res['autook'])
